@@ -10,6 +10,8 @@
 //   v w x y z   clear(HandlerType::AttrHandler ... Pipeline)
 //   X           clear()
 //   n m o q r   the five typed calls with a null pointer
+//   A B G S P   the five typed calls with a handler object that was passed before (the first one of its class
+//               created in this sequence; a new one if there is none yet)
 #include <QCoreApplication>
 #include <QFile>
 #include <QHash>
@@ -74,6 +76,11 @@ int main(int argc, char **argv)
         SortedPipeline pl;
         QHash<const Handler *, int> ids;
         int next = 1;
+        AttrHandlerPtr firstAttr;
+        FilterPtr firstFilter;
+        FormatterPtr firstFormatter;
+        SinkPtr firstSink;
+        PipelinePtr firstPipeline;
         {
             QJsonObject o;
             o["e"] = "Reset";
@@ -90,10 +97,22 @@ int main(int argc, char **argv)
             }
             return a;
         };
-        for (char ch : line) {
+        for (char ch0 : line) {
+            char ch = ch0;
             QJsonObject o;
             o["e"] = "Call";
+            // re-use of an existing object: falls back to the creating call when there is none yet
+            if (ch == 'A' && !firstAttr) ch = 'a';
+            if (ch == 'B' && !firstFilter) ch = 'f';
+            if (ch == 'G' && !firstFormatter) ch = 'F';
+            if (ch == 'S' && !firstSink) ch = 's';
+            if (ch == 'P' && !firstPipeline) ch = 'p';
             switch (ch) {
+            case 'A': pl.appendAttrHandler(firstAttr); o["op"] = "ReAppendH"; o["c"] = "attr"; o["i"] = ids.value(firstAttr.data()); break;
+            case 'B': pl.appendFilter(firstFilter); o["op"] = "ReAppendH"; o["c"] = "filter"; o["i"] = ids.value(firstFilter.data()); break;
+            case 'G': pl.setFormatter(firstFormatter); o["op"] = "ReSetFormatter"; o["c"] = "formatter"; o["i"] = ids.value(firstFormatter.data()); break;
+            case 'S': pl.appendSink(firstSink); o["op"] = "ReAppendH"; o["c"] = "sink"; o["i"] = ids.value(firstSink.data()); break;
+            case 'P': pl.appendPipeline(firstPipeline); o["op"] = "ReAppendH"; o["c"] = "pipeline"; o["i"] = ids.value(firstPipeline.data()); break;
             case 'a': {
                 const int id = next++;
                 auto h = FunctionAttrHandlerPtr::create([id](const LogMessage &) {
@@ -101,6 +120,7 @@ int main(int argc, char **argv)
                     return QVariantHash();
                 });
                 ids.insert(h.data(), id);
+                if (!firstAttr) firstAttr = h;
                 pl.appendAttrHandler(h);
                 o["op"] = "AppendH"; o["c"] = "attr";
                 break;
@@ -112,6 +132,7 @@ int main(int argc, char **argv)
                     return true;
                 });
                 ids.insert(h.data(), id);
+                if (!firstFilter) firstFilter = h;
                 pl.appendFilter(h);
                 o["op"] = "AppendH"; o["c"] = "filter";
                 break;
@@ -123,6 +144,7 @@ int main(int argc, char **argv)
                     return QStringLiteral("x");
                 });
                 ids.insert(h.data(), id);
+                if (!firstFormatter) firstFormatter = h;
                 pl.setFormatter(h);
                 o["op"] = "SetFormatter"; o["c"] = "formatter";
                 break;
@@ -131,6 +153,7 @@ int main(int argc, char **argv)
                 const int id = next++;
                 auto h = QSharedPointer<RecSink>::create(id);
                 ids.insert(h.data(), id);
+                if (!firstSink) firstSink = h;
                 pl.appendSink(h);
                 o["op"] = "AppendH"; o["c"] = "sink";
                 break;
@@ -143,6 +166,7 @@ int main(int argc, char **argv)
                     return false; // a nested pipeline never stops its parent
                 }));
                 ids.insert(h.data(), id);
+                if (!firstPipeline) firstPipeline = h;
                 pl.appendPipeline(h);
                 o["op"] = "AppendH"; o["c"] = "pipeline";
                 break;
